@@ -24,27 +24,35 @@ class Run:
         self.leftover = 0
         self.blocked_on_event = [0] * n
         self.trace = []
+        self.span = 1  # product of the numbers of choices met: the schedule integer must range over at least this much
 
 
-def run_all(gens, code, max_steps=400, on_step=None):
+def run_all(gens, code, max_steps=400, on_step=None, lead=None):
     """Exhaustive-choice scheduler: at every step the next thread is digit `code % k` of the
-    symbolic integer, k = number of runnable threads."""
+    symbolic integer, k = number of runnable threads.  lead = (thread, state): that thread alone runs
+    until it has yielded `state` (a fixed prefix that prunes symmetric schedules)."""
     n = len(gens)
     state = [None] * n
     done = [False] * n
     r = Run(n)
+    leading = lead is not None
     while not all(done):
         runnable = [i for i in range(n) if not done[i] and not is_blocked(state[i])]
         if not runnable:
             r.deadlock = True
             return r
         k = len(runnable)
-        if k == 1:
+        if leading and state[lead[0]] == lead[1]:
+            leading = False
+        if leading and lead[0] in runnable:
+            i = lead[0]
+        elif k == 1:
             i = runnable[0]
         else:
             d = code % k
             code = code // k
             i = runnable[d]
+            r.span = r.span * k
         try:
             state[i] = next(gens[i])
             if isinstance(state[i], tuple) and state[i][0] == "blocked" and isinstance(state[i][1], Event):
